@@ -21,7 +21,7 @@ RANGE_POOL = [("a", "z"), ("0", "9"), ("A", "F"), ("à", "ÿ"), ("a", "é"), ("!
 FIELD_NAMES = ["a", "b", "c", "d", "type", "fn", "x1"]
 WS_CHOICES = ["", "", " ", " ", "  ", "\n", "\t", " \r\n", "\x0c"]
 NEAR_WS = ["\x0b", " ", " "]
-ALPHABET = list("abxz019(),;+-= \n\t_{[@`") + ["é", "ß", "😀", "→", "à", "α", "A", "Z", "F"]
+ALPHABET = list("abxz019(),;+-= \n\t_{[@`") + ["é", "ß", "😀", "→", "à", "α", "A", "Z", "F", "\ufeff"]
 
 
 class Rule:
@@ -321,8 +321,20 @@ class GrammarGen:
         if r < 0.7:
             a, b = rnd.choice(RANGE_POOL)
             return ("range", a, b)
-        if r < 0.85:
+        if r < 0.8:
             return ("field", None, False, rnd.choice(self.leaves + ["char"]))
+        if r < 0.9:
+            # bodies that can match without consuming anything (also at the very end of the input)
+            k = rnd.randrange(5)
+            if k == 0:
+                return ("eoi",)
+            if k == 1:
+                return ("opt", ("choice", [("seq", [("lit", rnd.choice(LIT_POOL), False)])]))
+            if k == 2:
+                return ("clo", ("choice", [("seq", [("lit", rnd.choice(LIT_POOL), False)])]), False)
+            if k == 3:
+                return ("neg", ("lit", rnd.choice(LIT_POOL), False))
+            return ("group", ("choice", [("seq", [("lit", rnd.choice(LIT_POOL), False)]), ("seq", [("eoi",)])]))
         return ("group", ("choice", [("seq", [("lit", rnd.choice(LIT_POOL), False), ("eoi",)]),
                                        ("seq", [("lit", rnd.choice(LIT_POOL), False)])]))
 
@@ -359,6 +371,14 @@ class GrammarGen:
                 parts.append(("eoi",))
             elif r < 0.73:
                 parts.append(("lit", "", False))
+            elif r < 0.80 and getattr(self, "ws_refs", False) and k > 0:
+                # never first: keeps closure bodies consuming
+                if fields_ok and rnd.random() < 0.6:
+                    fn = rnd.choice(FIELD_NAMES)
+                    fields.add(fn)
+                    parts.append(("field", fn, False, "Whitespace"))
+                else:
+                    parts.append(("field", None, False, "Whitespace"))
             else:
                 parts.append(self.solid_atom(fields_ok, fields))
         return ("seq", parts)
@@ -389,6 +409,9 @@ class GrammarGen:
     def generate(self):
         rnd, o = self.rnd, self.o
         self.make_leaves()
+        self.user_ws = rnd.random() < o.p_user_ws
+        self.ws_variant = rnd.randrange(4) if self.user_ws else None
+        self.ws_refs = self.user_ws and rnd.random() < 0.7   # explicit references to the grammar's own Whitespace rule
         self.n_main = rnd.randint(*o.n_rules)
         # fragments for includes (bodies over leaves only)
         if rnd.random() < o.p_include:
@@ -444,17 +467,23 @@ class GrammarGen:
                 if "@memoize" in r.dirs and r.body[0] == "choice" and rnd.random() < 0.7:
                     r.body = ("choice", [("seq", [("field", None, False, self.probe), ("group", r.body)])])
         self.rules = mains + self.rules + self.rules_leaf
-        if rnd.random() < o.p_user_ws:
+        if self.user_ws:
             ws_body = ("choice", [("seq", [("clo", ("choice", [("seq", [("field", None, False, "Comment")]),
                                                              ("seq", [("lit", " ", False)]), ("seq", [("lit", "\n", False)]),
                                                              ("seq", [("lit", "\t", False)])]), False)])])
-            self.rules.append(Rule("Whitespace", dirs=["@no_skip_ws"], body=ws_body))
+            ws_dirs = ["@no_skip_ws"]
+            if self.ws_variant == 1:
+                ws_dirs.append("@position")
+            elif self.ws_variant == 2:
+                ws_dirs.append("@string")
+            elif self.ws_variant == 3:       # not idempotent: at most one '_' and then blanks
+                ws_body = ("choice", [("seq", [("opt", ("choice", [("seq", [("lit", "_", False)])])),
+                                               ("clo", ("choice", [("seq", [("lit", " ", False)]), ("seq", [("field", None, False, "Comment")])]), False)])])
+            rnd.shuffle(ws_dirs)
+            self.rules.append(Rule("Whitespace", dirs=ws_dirs, body=ws_body))
             self.rules.append(Rule("Comment", dirs=["@no_skip_ws"], body=("choice", [("seq", [
                 ("lit", "#", False), ("clo", ("choice", [("seq", [("neg", ("lit", "\n", False)), ("field", None, False, "char")])]), False),
                 ("lit", "\n", False)])])))
-            self.user_ws = True
-        else:
-            self.user_ws = False
         return self
 
     def text(self, rnd=None, fancy=False, inline=False):
@@ -582,6 +611,8 @@ class GrammarGen:
             r = rnd.random()
             if r < 0.7:
                 out.append(self.mutate(rnd.choice(valid)))
+            elif r < 0.76:
+                out.append(rnd.choice(["\ufeff", "\ufeff", " ", "\u00a0", "\u3000"]) + rnd.choice(valid))
             elif r < 0.8:
                 out.append(rnd.choice(valid) + rnd.choice(["", " ", "x", "\n"]))
             else:
